@@ -360,3 +360,41 @@ Definition decode_literal (luau : bool) (lit : bytes) : option bytes :=
 (** a literal is 5.1-compatible when it has no escape 5.1 lacks; decided by decoding *)
 Definition decodes_51 (lit : bytes) : bool :=
   match decode_literal false lit with Some _ => true | None => false end.
+
+(** * Interpolated string segments ([write_interpolated_string_segment], Luau only)
+
+    The literal part of a backtick string between two [{value}] holes: the same byte loop as
+    [quote_bytes] with two delimiters, the backtick and the opening brace. *)
+Fixpoint segment_bytes (s : bytes) : bytes :=
+  match s with
+  | [] => []
+  | c :: rest =>
+    (if (c =? 96) || (c =? 123) then [92; c]
+     else if needs_escaping c then escape c (next_is_digit_b rest)
+     else [c]) ++ segment_bytes rest
+  end.
+
+(** Reference reader of a segment: Luau reads the body of a backtick string with the escape rules
+    of quoted strings; a raw backtick ends the string, a raw [{] opens a hole, and [\{] and
+    backslash-backtick denote the brace and the backtick.  [seg_pre] rewrites the two extra
+    escapes as decimal escapes and rejects a raw brace; the result is read by [unescape] with the
+    backtick as delimiter (so a raw backtick or a raw line break is rejected there).  Stricter
+    than Luau: [\u{...}] is rejected (darklua never writes it in a segment). *)
+Fixpoint seg_pre (esc : bool) (s : bytes) : option bytes :=
+  match s with
+  | [] => if esc then Some [92] else Some []
+  | c :: rest =>
+    if esc then
+      if c =? 123 then option_map (app [92; 49; 50; 51]) (seg_pre false rest)       (* \123 *)
+      else if c =? 96 then option_map (app [92; 48; 57; 54]) (seg_pre false rest)   (* \096 *)
+      else option_map (app [92; c]) (seg_pre false rest)
+    else if c =? 92 then seg_pre true rest
+    else if c =? 123 then None
+    else option_map (cons c) (seg_pre false rest)
+  end.
+
+Definition decode_segment (body : bytes) : option bytes :=
+  match seg_pre false body with
+  | Some t => unescape true 96 t
+  | None => None
+  end.
